@@ -27,7 +27,7 @@ BOUNDS = {
              "2 blocks: all 25 ordered name pairs x 16 x 24 reduced tables x numbering; 3 blocks: 8 name triples x 36 table "
              "triples x numbering x comments on/off.  (b) 3 table sets x (1 block: 4608 layouts, 2 blocks: 13824 layouts)",
     "thorough": "(a) 1 block: rows 0..3 x kind tuples of length 1..4 (340) x 5 names; 30-column and 200-row tables; 2 blocks: 25 name "
-                "pairs x 40 x 60 tables; 3 blocks: 125 name triples; 4 blocks.  (b) 4 table sets (one 30 columns wide), 5 separators, "
+                "pairs x 28 x 48 tables; 3 blocks: 125 name triples; 4 blocks.  (b) 4 table sets (one 30 columns wide), 5 separators, "
                 "extra comment/blank variants",
 }
 ASSUMPTIONS = [
@@ -37,7 +37,7 @@ ASSUMPTIONS = [
     "parsed floats may differ from the correctly rounded value of the token by <= 4 ulp (parser freedom)",
     "a block whose name contains 'stopgap' is expected with un-numbered labels even if number_columns=True (clause file-header-stopgap-unnumbered, separate signature)",
 ]
-BUDGET_S = {"quick": 300, "thorough": 2400}
+BUDGET_S = {"quick": 600, "thorough": 3000}
 
 EPS = float(np.finfo(np.float64).eps)
 
@@ -305,8 +305,9 @@ def rt_single(tier, seed):
 
 def rt_multi(tier, seed):
     kts = REDUCED_KINDS if tier == "quick" else kind_tuples(2)
-    first = [(r, kt) for kt in kts for r in (1, 2)]
-    last = [(r, kt) for kt in kts for r in (0, 1, 2)]
+    # full row alphabet for the reduced kind tuples, a thinner one for the other tuples (thorough only)
+    first = [(r, kt) for kt in kts for r in ((1, 2) if kt in REDUCED_KINDS else (2,))]
+    last = [(r, kt) for kt in kts for r in ((0, 1, 2) if kt in REDUCED_KINDS else (0, 2))]
     pairs = [(a, b) for a in NAMES5 for b in NAMES5]
     two = Mapped(Product(first, last, pairs, [True, False]),
                  lambda c: ((c[0], c[1]), c[2], c[3], "str", None, seed))
@@ -384,8 +385,8 @@ def layout_slots(tier):
     }
     if tier == "thorough":
         slots["sep"] += ["    ", "\t\t"]
-        slots["pre"] += [("", "", "#", ""), ("   ",)]
-        slots["between"] += [("", ""), ("#",)]
+        slots["pre"] += [("", "", "#", "")]
+        slots["between"] += [("#",)]
         slots["post_labels"] += [("", "# c", "")]
     return slots
 
